@@ -116,8 +116,20 @@ theorem view_of_view (ref : FSRef) (b : List Name) (hv : ViewOK ref b) (raw : By
     (hn : norm raw = some q) : ∃ v, openView ref raw = some v ∧ ViewOK v (b ++ q) :=
   openView_some ref b hv raw q hn
 
+/-- …and for every other `raw` it FAILS, through any handle: a spelling whose walk passes the root of the
+view it is given to is refused by `Filespace` whether or not the walk would still end inside the root
+filespace (`../sibling`, `work/../../sibling`, `/../sibling` from a view one or more levels down) — the
+reduction is relative to the view, not to the concatenated path.  With `view_of_view` this decides
+`openView` for all byte strings; `memfs_run_refines` uses both (a refused call opens no handle). -/
+theorem view_escape_refused (ref : FSRef) (raw : Bytes) (hn : norm raw = none) : openView ref raw = none :=
+  openView_none ref raw hn
+
 example : Inv Node.empty := inv_empty
 example : ViewOK .root [] := rfl
+-- "work/../../secret" and "/../secret" climb out of any view; base ++ raw would reduce inside the root filespace
+example : norm [119, 111, 114, 107, 47, 46, 46, 47, 46, 46, 47, 115] = none
+    ∧ norm ([97, 47, 98, 47] ++ [119, 111, 114, 107, 47, 46, 46, 47, 46, 46, 47, 115]) = some [[97], [115]] := by decide
+example : openView (.wrap [97, 47, 98, 47]) [47, 46, 46, 47, 115] = none := by decide
 example : ViewOK (.wrap [97, 47, 98, 47]) [[97], [98]] :=
   ⟨by intro s hs; simp at hs; rcases hs with rfl | rfl <;> decide, by decide⟩
 -- from the view rooted at a/b: "c/./d/.." opens the view rooted at a/b/c, "../c" is refused
